@@ -68,7 +68,8 @@ def generic(seed, n, L, tag):
 def gen_routing(tier, seed):
     geoms = [(3, "sqr", "six", 1), (3, "uneq", "six", 1)]
     if tier == "thorough":
-        geoms += [(2, "sqr", "six", 1), (2, "uneq", "neg", 1), (3, "sqr", "neg", 2), (3, "uneq", "pyth", 1)]
+        geoms += [(2, "sqr", "six", 1), (2, "uneq", "neg", 1), (3, "sqr", "neg", 2), (3, "uneq", "pyth", 1),
+                  (3, "sqr", "shell1", 1), (3, "uneq", "neg", 3), (2, "sqr", "pyth", 2), (3, "cube", "pyth", 1)]
     for (d, box, ql, F) in geoms:
         L = BOX[d][box]
         fr = frames_for(seed, generic(seed, 6, L, f"sqA{d}{box}"), F, f"sqA{d}{box}")
@@ -354,7 +355,7 @@ def subs(tier, seed):
                  "(4683 maps) per (dimension, box, wave-vector list, frames); every |q| row of every column compared with the "
                  "loop reference (rounded-interval oracle), plus column names, grouping, sum rule, non-negativity; "
                  "non-trivial = >= 2 |q| groups with different S",
-            bounds={"type_maps": 4683, "geometries": 2 if tier == "quick" else 6}),
+            bounds={"type_maps": 4683, "geometries": 2 if tier == "quick" else 10}),
         Sub("C04.explicit", gen_explicit, run,
             rule="{2D,3D} x {Lx=Ly box, unequal box} x placements {generic6, 2^d lattice (Bragg/zero), cluster5, pair, single"
                  + (", all 3-/4-subsets of 5 generic points" if tier == "thorough" else "")
